@@ -228,6 +228,8 @@ def ref_msb0(op, s, a):
             cnt = _opt(a[3])
             if cnt is not None and cnt < 0:
                 raise RefErr("count")
+            if not t:
+                raise RefErr("empty")
             st, e = _validate(n, _opt(a[1]), _opt(a[2]))
             ms = _matches(s, t, st, e, a[4] == "1")
             return ms if cnt is None else ms[:cnt]
@@ -258,11 +260,11 @@ def ref_msb0(op, s, a):
             return out
         if op == "replace":
             old, new, cnt = unwire(a[0]), unwire(a[1]), _opt(a[4])
-            if cnt == 0:
-                return (0, B(s))
             if not old:
                 raise RefErr("empty")
             st, e = _validate(n, _opt(a[2]), _opt(a[3]))
+            if cnt == 0:
+                return (0, B(s))
             pts = []
             for x in _matches(s, old, st, e, a[5] == "1"):
                 if not pts or x >= pts[-1] + len(old):
@@ -335,7 +337,7 @@ def ref_msb0(op, s, a):
                 raise RefErr("neg")
             st, e = _validate(n, _opt(a[1]), _opt(a[2]))
             if e == st:
-                raise RefErr("empty range")
+                return B(s)
             k %= (e - st)
             w = s[st:e]
             w = (w[k:] + w[:k]) if op == "rol" else (w[len(w) - k:] + w[:len(w) - k])
@@ -666,10 +668,10 @@ def _ref_seq(s, steps):
 def _tables():
     """keys and targets of the two method tables in Options.set_lsb0, read from the source with ast"""
     from bitstring import bitstring_options
-    src = textwrap.dedent(inspect.getsource(bitstring_options.Options.set_lsb0))
-    tree = ast.parse(src)
+    mod = ast.parse(open(bitstring_options.__file__).read())
+    fns = [n for n in ast.walk(mod) if isinstance(n, ast.FunctionDef) and n.name == "set_lsb0"]
     out = {}
-    for node in ast.walk(tree):
+    for node in (ast.walk(fns[0]) if fns else []):
         if isinstance(node, ast.Assign) and isinstance(node.targets[0], ast.Name) and node.targets[0].id in ("lsb0_methods", "msb0_methods"):
             ents = []
             for ck, cv in zip(node.value.keys, node.value.values):
@@ -1013,6 +1015,7 @@ def gen_search(rng, tier):
                     yield L("endswith", _acls(rng), s, "-", a, b)
                     yield L("find", _acls(rng), s, "-", a, b, 0)
                     yield L("rfind", _acls(rng), s, "-", a, b, 0)
+                    yield L("findall", _acls(rng), s, "-", a, b, rng.choice([None, 1, -1]), 0)
                     yield L("replace", _mcls(rng), s, "-", "1", a, b, rng.choice([None, 0, 1]), 0)
                 for k in ([1, 2, 3, n, n + 1, 0, -1] if n <= 8 else [1, 3, 5, 8]):
                     if rng.random() < (0.5 if n <= 8 else 0.2) * (1 if big else 0.2):
@@ -1023,9 +1026,8 @@ def gen_search(rng, tier):
                     na, nb = (a if a is None or a >= 0 else a + n), (b if b is None or b >= 0 else b + n)
                     sa, sb = (0 if na is None else na), (n if nb is None else nb)
                     k = rng.choice([0, 1, 2, 3, n, n + 1, -1])
-                    if not (0 <= sa <= sb <= n and sa == sb):           # rotation of an empty range: C03's business
-                        yield L("rol", _mcls(rng), s, k, a, b)
-                        yield L("ror", _mcls(rng), s, k, a, b)
+                    yield L("rol", _mcls(rng), s, k, a, b)
+                    yield L("ror", _mcls(rng), s, k, a, b)
         for s in conts[:2]:
             for pos in range(-(n + 2), n + 3):
                 for v in ("", "1", "01", "1101", _pat(n + 1, 5)):
@@ -1080,8 +1082,7 @@ def gen_bytes(rng, tier):
                 yield L("reverse", _mcls(rng), s, a, b)
                 sa = 0 if a is None else (a + n if a < 0 else a)
                 sb = n if b is None else (b + n if b < 0 else b)
-                if not (0 <= sa <= sb <= n and sa == sb):
-                    yield L(rng.choice(["rol", "ror"]), _mcls(rng), s, rng.choice([0, 1, 7, 8, 9, n, n + 3]), a, b)
+                yield L(rng.choice(["rol", "ror"]), _mcls(rng), s, rng.choice([0, 1, 7, 8, 9, n, n + 3]), a, b)
                 yield L("cut", _acls(rng), s, rng.choice([1, 7, 8, 9, 16, n]), a, b, rng.choice([None, None, 1, 3]))
             yield L("value", _acls(rng), s)
     for n in [63, 64, 65, 127, 128, 129, 1023, 1024, 1025]:
@@ -1226,9 +1227,7 @@ def gen_seq(rng, tier):
                 a = [str(p())]
             elif op in ("rol", "ror"):
                 x, y = sorted([rng.randint(0, k), rng.randint(0, k)])
-                if x == y:
-                    if k == 0:
-                        continue
+                if x == y and rng.random() < 0.7:
                     x, y = None, None
                 a = [str(rng.randint(0, 5)), sv(x), sv(y)]
             elif op == "rev":
